@@ -81,6 +81,14 @@ TEMPLATES = {
                 "where forall <e> in <ex>: str(<e>.<st>.<id>) == str(<e>.<req>.<id>)\n" + PARTIES_1,
         "externals": ["Extern"], "expected_msgs": 6,
     },
+    # a message fandango sends AFTER a remote one has to echo it: the constraint can only be met by changing fandango's own,
+    # not yet sent message - the recorded remote message is history
+    "echo-ack": {
+        "spec": "import vf_bridge\n<start> ::= <ex>{2}\n<ex> ::= <Fuzzer:Extern:req> <Extern:Fuzzer:seq> <Fuzzer:Extern:ack>\n<req> ::= 'REQ ' <id> '\\n'\n"
+                "<seq> ::= 'SEQ ' <num> '\\n'\n<ack> ::= 'ACK ' <num> '\\n'\n<id> ::= <digit>{3}\n<num> ::= <digit>{2}\n" + DIG +
+                "where forall <e> in <ex>: str(<e>.<seq>.<num>) == str(<e>.<ack>.<num>)\n" + PARTIES_1,
+        "externals": ["Extern"], "expected_msgs": 6,
+    },
 }
 BEHAVIOURS = ["valid", "valid", "valid", "wrong-type", "bad-value", "truncated", "silence", "extra"]
 
@@ -93,7 +101,7 @@ def cases(tier, seed):
     for i in range(n):
         t = names[i % len(names)]
         script = [rng.choice(BEHAVIOURS) for _ in range(8)]
-        if i % 3 == 0:
+        if (i // len(names)) % 3 == 0:      # every template gets all-valid peers in a third of its cases
             script = ["valid"] * 8
         out.append({"key": f"{t}-{i}", "t": t, "script": script, "seed": rng.randrange(1 << 30), "maxdelay": rng.choice([0.0, 0.003, 0.02])})
     return out
@@ -276,6 +284,9 @@ def run_case(c):
             good = f"{tag} {ident} s{s:04d}\n"
             if c["t"] == "coalesce":
                 good = f"OK {ident}" + (" more\n" if rng.random() < 0.4 else "") + f"N{s:04d}\n"
+            if c["t"] == "echo-ack":
+                good = f"SEQ {rng.randrange(100):02d}\n"
+                tag = "SEQ"
             b = beh if ext == T["externals"][0] else "valid"
             if b == "valid":
                 data = good
